@@ -84,9 +84,14 @@ static inline int cmp_result(int d) /* d: difference of the first differing key 
     default: return d > 0 ? 2 + d % 7 : -2 - (-d) % 5;
     }
 }
+/* vec.h / buf.h document the key of push_sort as "the key on the right": a comparator may tell elements (left) from keys (right)
+   apart. While a push_sort call is in flight the key block is known and a comparator call with it as the LEFT operand is counted. */
+static void const *g_key_ptr;
+static int g_key_left;
 static int cmp_elem(void const *l, void const *r)
 {
     int a = *(unsigned char const *)l, b = *(unsigned char const *)r;
+    if (g_key_ptr && l == g_key_ptr) { ++g_key_left; }
     return cmp_result(a - b);
 }
 static unsigned char dtor_log[MAXE * 2][MAXSZ];
@@ -572,6 +577,7 @@ static big G[2];
 static int cmp_big(void const *l, void const *r)
 {
     unsigned char const *a = (unsigned char const *)l, *b = (unsigned char const *)r;
+    if (g_key_ptr && l == g_key_ptr) { ++g_key_left; }
     for (size_t i = 0; i < g_K; ++i)
     {
         if (a[i] != b[i]) { return cmp_result((int)a[i] - (int)b[i]); }
@@ -1189,8 +1195,11 @@ static void b_sorted_insert(big *g, vf_rng *r, int variant, int want_full, int k
         b_write(g, key, id);
         full = L_num(s) == L_mem(s);
         vf_log("L %s push_sort key %08x (num %zu mem %zu)", KN, id & g->kmask, L_num(s), L_mem(s));
+        g_key_ptr = key; g_key_left = 0;
         p = s->is_buf ? a_buf_push_sort(s->b, key, cmp_big) : a_vec_push_sort(s->v, key, cmp_big);
+        g_key_ptr = NULL;
         free(key);
+        if (g_key_left) { BFAIL("comparator-key-on-the-left", "%d comparator calls had the key as the left operand (documented: the key on the right)", g_key_left); return; }
         if (!p) { BFAIL("unexpected-null", "push_sort failed with num %zu mem %zu", n0, L_mem(s)); return; }
         if (!b_owned(g, p, "push_sort slot")) { return; }
         b_write(g, p, id);
@@ -2565,7 +2574,10 @@ static void small_case(uint64_t c, vf_rng *r)
             {
                 opname = "push_sort";
                 vf_log("%s push_sort key %u (num %zu mem %zu)", KN, el[0], L_num(s), L_mem(s));
+                g_key_ptr = el; g_key_left = 0;
                 p = L_push_sort(s, el);
+                g_key_ptr = NULL;
+                if (g_key_left) { FAIL("comparator-key-on-the-left", "%d comparator calls had the key as the left operand (documented: the key on the right)", g_key_left); alive = 0; break; }
                 if (!p) { FAIL("unexpected-null", "push_sort failed with num %zu mem %zu", oldn, L_mem(s)); alive = 0; break; }
                 if (!check_owned(s, p, "push_sort slot")) { alive = 0; break; }
                 memcpy(p, el, s->siz);
